@@ -1508,3 +1508,37 @@ IMAGE_FIELD_DEFAULTS = {
                 value = coerce(value)
             setattr(self, name, value)
 '''))
+
+M("c01m", "fire", ["C01"], "is_layered written only when it is false: a layered release is read back as not layered",
+  (CI, '''        if self.is_layered:
+            data[self._section]["is_layered"] = bool(self.is_layered)
+        data[self._section]["internal"]''', '''        if not self.is_layered:
+            data[self._section]["is_layered"] = bool(self.is_layered)
+        data[self._section]["internal"]'''))
+
+M("c14h", "fire", ["C14"], "base-product parts no longer get their bp_ prefix: they overwrite the release parts",
+  (CO, '''    result = dict([("%s%s" % (prefix, key), value) for key, value in result.items()])
+    return result''', '''    return result'''))
+
+M("c14i", "fire", ["C14"], "parse_release_id forgets to merge the base-product part",
+  (CO, '''        result.update(_parse_release_id_part(base_product, prefix="bp_"))''', '''        _parse_release_id_part(base_product, prefix="bp_")'''))
+
+M("c05l", "fire", ["C05"], "label of a pre-0.3 composeinfo dropped on conversion (and None for or None)",
+  (CI, '''    def deserialize_0_3(self, data):
+        self.id = data[self._section]["id"]
+        self.label = data[self._section].get("label", None) or None''', '''    def deserialize_0_3(self, data):
+        self.id = data[self._section]["id"]
+        self.label = data[self._section].get("label", None) and None'''))
+
+M("n84", "neutral", [], "release-id part parser builds the prefixed dict directly",
+  (CO, '''    result = {
+        "short": short,
+        "version": version,
+        "type": release_type,
+    }
+    result = dict([("%s%s" % (prefix, key), value) for key, value in result.items()])
+    return result''', '''    return {
+        prefix + "short": short,
+        prefix + "version": version,
+        prefix + "type": release_type,
+    }'''))
